@@ -487,6 +487,12 @@ def range_order(ctx):
                     bb = ('bin', 'Add', bb[1][2], bb[1][3])
                 if bb[0] == 'bin' and bb[1] == 'Add' and sa in (expr_str(bb[2]), expr_str(bb[3])):
                     why = 'end is start + n (that the addition cannot wrap is INT-OVF\'s obligation)'
+            if why is None:
+                aa = a
+                if aa[0] == 'field' and isinstance(aa[1], tuple) and aa[1][0] == 'bin' and aa[1][1] == 'SubWithOverflow' and str(aa[2]) == '0':
+                    aa = ('bin', 'Sub', aa[1][2], aa[1][3])
+                if aa[0] == 'bin' and aa[1] == 'Sub' and sb == expr_str(aa[2]):
+                    why = 'start is end - n (that the subtraction cannot wrap is INT-OVF\'s obligation)'
             if why is None and a[0] == 'index' and b[0] == 'index':
                 ta, tb = const_tuple(a[1]), const_tuple(b[1])
                 if ta and tb and len(ta) == len(tb) and expr_str(a[2]) == expr_str(b[2]) and all(x <= y for x, y in zip(ta, tb)):
